@@ -153,8 +153,10 @@ def h_entry(E, shape, samples, credit, tolkind='abs'):
     if r['grade_decimal'] == 0 and r['ok'] is False:
         E.check('zero-iff-no-entry-matches', near_eq(cnt, 0) if credit != 0 else cnt < n)
         return 'zero'
-    want = cnt / n if credit == 'proportional' else credit
-    E.check('partial-credit-flat-or-proportional', sand(cnt > 0, cnt < n, near_eq(r['grade_decimal'], want), r['ok'] == 'partial'))
+    # the code reports the double nearest to k/n (1/3, 1/6 ... are not doubles): compare n*grade with the integer count up to 1e-9
+    g_n = r['grade_decimal'] * n
+    right = sand(near_le(g_n - cnt, 1e-9), near_le(cnt - g_n, 1e-9)) if credit == 'proportional' else near_eq(r['grade_decimal'], credit)
+    E.check('partial-credit-flat-or-proportional', sand(cnt > 0, cnt < n, right, r['ok'] == 'partial'))
     return 'partial'
 
 
@@ -370,7 +372,7 @@ def harnesses(tier):
         add(h_eigen, 'eigen', dict(n=3, tol='abs'), '3x3 symbolic', expect_inconclusive=True)
     for d in ('type', 'shape', None):
         add(h_eigen_shape, 'eigen_shape', dict(detail=d), 'wrong shapes')
-    for shape, samples in [((2,), 1), ((2,), 2), ((2, 2), 1)] + ([((2, 3), 2), ((3,), 3)] if T else []):
+    for shape, samples in [((2,), 1), ((2,), 2), ((2, 2), 1), ((3,), 1)] + ([((2, 3), 2), ((3,), 3)] if T else []):
         for credit in (0, 0.5, 'proportional'):
             add(h_entry, 'entry', dict(shape='x'.join(map(str, shape)), samples=samples, credit=credit), 'symbolic entries and tolerance')
             hs[-1].params = (shape, samples, credit)
